@@ -2,22 +2,22 @@ import Spydr.IR.SepOps0
 namespace Spydr.IR
 
 set_option maxHeartbeats 1600000 in
-theorem sep_addLibrary (s : S) (off n l pos veto) : Sep s off → (Op.addLibrary n l pos veto).above off →
-    Sep (step s (.addLibrary n l pos veto)).1 off ∧ LowEq (step s (.addLibrary n l pos veto)).1 s off := by sep_op
+theorem sep_addLibrary (s : S) (R : OId → Prop) (n l pos veto) : Sep s R → (Op.addLibrary n l pos veto).inside R →
+    Sep (step s (.addLibrary n l pos veto)).1 R ∧ OutEq (step s (.addLibrary n l pos veto)).1 s R := by sep_op
 set_option maxHeartbeats 1600000 in
-theorem sep_removeDefinitionsFrom (s : S) (off l ds) : Sep s off → (Op.removeDefinitionsFrom l ds).above off →
-    Sep (step s (.removeDefinitionsFrom l ds)).1 off ∧ LowEq (step s (.removeDefinitionsFrom l ds)).1 s off := by sep_op
+theorem sep_removeDefinitionsFrom (s : S) (R : OId → Prop) (l ds) : Sep s R → (Op.removeDefinitionsFrom l ds).inside R →
+    Sep (step s (.removeDefinitionsFrom l ds)).1 R ∧ OutEq (step s (.removeDefinitionsFrom l ds)).1 s R := by sep_op
 set_option maxHeartbeats 1600000 in
-theorem sep_addCable (s : S) (off d c pos veto) : Sep s off → (Op.addCable d c pos veto).above off →
-    Sep (step s (.addCable d c pos veto)).1 off ∧ LowEq (step s (.addCable d c pos veto)).1 s off := by sep_op
+theorem sep_addCable (s : S) (R : OId → Prop) (d c pos veto) : Sep s R → (Op.addCable d c pos veto).inside R →
+    Sep (step s (.addCable d c pos veto)).1 R ∧ OutEq (step s (.addCable d c pos veto)).1 s R := by sep_op
 set_option maxHeartbeats 1600000 in
-theorem sep_removeChildrenFrom (s : S) (off d is) : Sep s off → (Op.removeChildrenFrom d is).above off →
-    Sep (step s (.removeChildrenFrom d is)).1 off ∧ LowEq (step s (.removeChildrenFrom d is)).1 s off := by sep_op
+theorem sep_removeChildrenFrom (s : S) (R : OId → Prop) (d is) : Sep s R → (Op.removeChildrenFrom d is).inside R →
+    Sep (step s (.removeChildrenFrom d is)).1 R ∧ OutEq (step s (.removeChildrenFrom d is)).1 s R := by sep_op
 set_option maxHeartbeats 1600000 in
-theorem sep_addWire (s : S) (off c w pos) : Sep s off → (Op.addWire c w pos).above off →
-    Sep (step s (.addWire c w pos)).1 off ∧ LowEq (step s (.addWire c w pos)).1 s off := by sep_op
+theorem sep_addWire (s : S) (R : OId → Prop) (c w pos) : Sep s R → (Op.addWire c w pos).inside R →
+    Sep (step s (.addWire c w pos)).1 R ∧ OutEq (step s (.addWire c w pos)).1 s R := by sep_op
 set_option maxHeartbeats 1600000 in
-theorem sep_disconnect (s : S) (off w r) : Sep s off → (Op.disconnect w r).above off →
-    Sep (step s (.disconnect w r)).1 off ∧ LowEq (step s (.disconnect w r)).1 s off := by sep_op
+theorem sep_disconnect (s : S) (R : OId → Prop) (w r) : Sep s R → (Op.disconnect w r).inside R →
+    Sep (step s (.disconnect w r)).1 R ∧ OutEq (step s (.disconnect w r)).1 s R := by sep_op
 
 end Spydr.IR
